@@ -1,6 +1,7 @@
 (* C06 - wire decoding and the executable entry point run_C06.
    case   = [fs, cfgs, ops]
-   cfgs   = [[ [style, attrs]... ], [ [attrs, pen, has_style]... ]] ...
+   cfgs   = [[ [style, attrs]... ], [ [attrs, pen, [color, bgcolor, underline, strike, blink, reverse]]... ]] ...
+            (the six flags say which fields of the Attrs tuple are truthy)
    op     = [0, cfg, done, W, H, screen] | [1] (erase) | [2] (reset)
    screen = [height, show_cursor, cur_x, cur_y, [[y, [[x, chars, style, width]...]]...], [[y, x, id]...]]
    result = [[tokens, terminal dump] for the constructor and for every op] *)
@@ -50,8 +51,20 @@ Definition dec_op (s : sx) : option op :=
 
 Definition dec_pair (s : sx) : option (Z * Z) :=
   match s with L [A a; A b] => Some (a, b) | _ => None end.
+(* _StyleStringHasStyleCache.__missing__:
+   bool(attrs.color or attrs.bgcolor or attrs.underline or attrs.strike or attrs.blink or attrs.reverse) *)
+Definition has_style (color bgcolor underline strike blink reverse : bool) : bool :=
+  color || bgcolor || underline || strike || blink || reverse.
+
 Definition dec_attr (s : sx) : option (Z * (Z * bool)) :=
-  match s with L [A a; A p; h] => bind (as_bool h) (fun hb => Some (a, (p, hb))) | _ => None end.
+  match s with
+  | L [A a; A p; L [c; b; u; k; bl; r]] =>
+      match as_bool c, as_bool b, as_bool u, as_bool k, as_bool bl, as_bool r with
+      | Some c', Some b', Some u', Some k', Some bl', Some r' => Some (a, (p, has_style c' b' u' k' bl' r'))
+      | _, _, _, _, _, _ => None
+      end
+  | _ => None
+  end.
 
 Fixpoint alookup {T} (l : list (Z * T)) (k : Z) (d : T) : T :=
   match l with [] => d | (i, v) :: r => if i =? k then v else alookup r k d end.
